@@ -92,6 +92,18 @@ def indexByteI (s : Bytes) (c : UInt8) : Int :=
   | some i => (i : Int)
   | none => -1
 
+/-- `bytes.Index(s, sep)`: the position of the first occurrence of `sep`, or -1 -/
+def indexSub (sep : Bytes) : Bytes → Option Nat
+  | [] => if sep.isEmpty then some 0 else none
+  | b :: bs => if Bytes.hasPrefix (b :: bs) sep then some 0 else (indexSub sep bs).map (· + 1)
+def indexSubI (s sep : Bytes) : Int :=
+  match indexSub sep s with
+  | some i => (i : Int)
+  | none => -1
+
+/-- the zero value of `git.OID` -/
+def zeroOID : Bytes := List.replicate 20 0
+
 /-- `words[i]` for a `[]string` with a signed index -/
 def indexL (l : List Bytes) (i : Int) : Res Bytes :=
   if i < 0 then .panic "index-out-of-range" else
